@@ -574,8 +574,10 @@ pub fn execute(h: &History, want: &str, rep: &mut Report, mut trace: Option<&mut
 // ------------------------------------------------------------------------------------------------
 // workloads
 
-pub const FS_LIST: [f32; 16] =
-    [100.0, 128.0, 200.0, 256.0, 441.0, 512.0, 999.0, 1000.0, 1001.0, 1024.0, 8000.0, 22050.0, 44100.0, 48000.0, 96000.0, 192000.0];
+pub const FS_LIST: [f32; 32] = [
+    100.0, 125.0, 128.0, 200.0, 250.0, 256.0, 441.0, 500.0, 512.0, 999.0, 1000.0, 1001.0, 1024.0, 2000.0, 4000.0, 8000.0, 11025.0, 12000.0, 16000.0, 22050.0, 24000.0, 32000.0, 44100.0, 48000.0,
+    64000.0, 88200.0, 96000.0, 100000.0, 128000.0, 176400.0, 191999.0, 192000.0,
+];
 
 pub fn pick_fs(r: &mut Rng) -> f32 {
     if r.chance(0.5) {
@@ -872,6 +874,58 @@ pub fn slow(ctx: &Ctx, want: &str) -> Report {
     })
 }
 
+/// long-count histories: many gate cycles, and very long stays on the sustain / rest plateaus
+/// (counts around 2^8, 2^16 and 2^24, where a narrow counter inside the envelope would wrap)
+pub fn long_counts(ctx: &Ctx, want: &str) -> Report {
+    if ctx.tier == Tier::Small {
+        return Report::new();
+    }
+    let jobs: Vec<u32> = (0..6).collect();
+    par_shards(ctx, jobs.len(), |j| {
+        let mut rep = Report::new();
+        let fs = [1000.0f32, 48000.0, 100.0, 44100.0, 192000.0, 8000.0][j];
+        let t = 3.0 / fs; // three-tick phases
+        let mut ops = vec![Op::Attack(t), Op::Decay(t), Op::Sustain(0.5), Op::Release(t)];
+        match j {
+            0 | 1 => {
+                // 70 000 complete gate cycles
+                for _ in 0..70_000 {
+                    ops.extend([Op::GateOn, Op::Tick(9), Op::GateOff, Op::Tick(5)]);
+                }
+            }
+            2 => {
+                // 70 000 retriggers without ever coming to rest, then 300 ignored gate-ons in attack
+                for k in 0..70_000u32 {
+                    ops.extend([Op::GateOn, Op::Tick(1 + (k % 3) as u64), Op::GateOff, Op::Tick(1)]);
+                }
+                ops.push(Op::Attack(20.0));
+                for _ in 0..300 {
+                    ops.extend([Op::GateOn, Op::Tick(1)]);
+                }
+            }
+            3 => {
+                // 2^24 + a few ticks sustaining, then as many at rest
+                ops.extend([Op::GateOn, Op::Tick((1 << 24) + 40), Op::GateOff, Op::Tick((1 << 24) + 40), Op::GateOn, Op::Tick(20)]);
+            }
+            4 => {
+                // 2^16 +- 1 ticks on each plateau, several times
+                for d in [65_535u64, 65_536, 65_537, 255, 256, 257] {
+                    ops.extend([Op::GateOn, Op::Tick(d), Op::GateOff, Op::Tick(d)]);
+                }
+            }
+            _ => {
+                // thorough only: 2^31 ticks sustaining would be too slow to be useful; a 2^27 stay is affordable
+                let n = if ctx.tier == Tier::Thorough { 1u64 << 27 } else { 1 << 22 };
+                ops.extend([Op::GateOn, Op::Tick(n), Op::Sustain(0.25), Op::Tick(5), Op::GateOff, Op::Tick(n / 4)]);
+            }
+        }
+        let h = History { fs, ops };
+        run_and_record(&h, want, &mut rep, false);
+        rep.count("adsr.long_count_histories", 1);
+        rep
+    })
+}
+
 pub fn run(ctx: &Ctx, prop: &str) -> Report {
     let mut rep = Report::new();
     let stage = |name: &str, r: Report, rep: &mut Report, t0: std::time::Instant| {
@@ -885,6 +939,8 @@ pub fn run(ctx: &Ctx, prop: &str) -> Report {
     stage("adsr.random", random(ctx, prop), &mut rep, t);
     let t = std::time::Instant::now();
     stage("adsr.slow", slow(ctx, prop), &mut rep, t);
+    let t = std::time::Instant::now();
+    stage("adsr.long_counts", long_counts(ctx, prop), &mut rep, t);
     if ctx.tier != Tier::Small {
         for st in ["AtRest", "Attack", "Decay", "Sustain", "Release"] {
             rep.floor(&format!("adsr.gate_on_in.{}", st), 100);
@@ -900,6 +956,7 @@ pub fn run(ctx: &Ctx, prop: &str) -> Report {
         for k in ["attack", "decay", "release", "sustain"] {
             rep.floor(&format!("adsr.set_input.{}", k), 100);
         }
+        rep.floor("adsr.long_count_histories", 6);
     }
     rep
 }
